@@ -314,8 +314,8 @@ def main():
 
 COMMON_ASSUMPTIONS = [
     'Verus, Z3, vstd, rustc are sound; Kani/CBMC where a harness is listed',
-    'the generated file is /repo/src copied token for token except rewrite rules R1..R28 (DESIGN.md 2.2 and 13); hit counts in coverage.rewrite_rule_hits',
-    'assumed std contracts (spec/std_specs.rs): VecDeque::{as_slices,capacity,shrink_to,shrink_to_fit}, Vec::capacity, Vec::extend(&[u8]), HashMap<String,_> looked up by &str (String key model, view injectivity), Result::unwrap_or_else, convert::identity, mem::take, str::from_utf8, Instant::now, iter::once, BTreeSet::{first,pop_first,len}, BTreeSet::range((Excluded(k),Unbounded)).next() (R26 shim), HashMap::get_mut, fs::remove_file, <File as Seek>::seek(SeekFrom::Start(n)); bytes::Buf (R10), (start..).zip(it) (R19) and RangeBounds::{start_bound,end_bound} through a generic bound = the spec value vstd gives (R22) in spec/vshim.rs; derived Default/PartialEq impls are field-wise',
+    'the generated file is /repo/src copied token for token except rewrite rules R1..R29 (DESIGN.md 2.2 and 13); hit counts in coverage.rewrite_rule_hits',
+    'assumed std contracts (spec/std_specs.rs): VecDeque::{as_slices,capacity,shrink_to,shrink_to_fit}, Vec::capacity, Vec::extend(&[u8]), HashMap<String,_> looked up by &str (String key model, view injectivity), Result::unwrap_or_else, convert::identity, mem::take, str::from_utf8, Instant::now, iter::once, BTreeSet::{first,pop_first,len}, BTreeSet::range((Excluded(k),Unbounded)).next() (R26 shim), HashMap::get_mut, fs::remove_file, <File as Seek>::seek(SeekFrom::Start(n)), read_dir (R29 stand-in DirIter over the ghost listing), DirEntry::{file_type,file_name}, FileType::is_file, OsStr::to_str, <OsString as Deref>::deref, Path::to_path_buf, String: Ord obeys the vstd cmp laws; bytes::Buf (R10), (start..).zip(it) (R19) and RangeBounds::{start_bound,end_bound} through a generic bound = the spec value vstd gives (R22) in spec/vshim.rs; derived Default/PartialEq impls are field-wise',
     'shims of R6/R7 (spec/vshim.rs): u16/u32/u64 to/from little-endian bytes = vstd::bytes specs; Vec::drain(..n) / VecDeque::drain(..n) remove the first n elements',
     'crc32 is an uninterpreted function of (payload, type byte) (R9); nothing is assumed about it',
     'FS primitives (rolling/*): assumed contracts over a ghost model -- a file is a byte stream cut into 32 KiB blocks (spec/vfs.rs, read side); BufWriter<File> = vshim::BufFile with ghost content()/flushed()/synced() (write side): flush hands everything to the OS, fdatasync makes what the OS has durable, a forward seek skips bytes the file already holds; what is on disk after a FAILED write is not modelled',
